@@ -252,20 +252,17 @@ def run(prog: Program, res: Result, tier: str) -> None:
     else:
         res.ok("R4", fp, upd[0], "no reordering in the reader: header taken as stored", key=key)
 
-    # ---- R5 order of operations in read_subint ---------------------------------------------------------------
+    # ---- R5 per-row processing (reference definitions) ----------------------------------------------------------
+    from .. import kernelspec
     ru = prog.func(PFITS, "PFITSFile.read_subint")
-    src = norm(ru.node)
-    seq = ["unpack(sdata.ravel(), self.bitsinfo.nbits)", "if data.shape != self.sub_hdr.subint_shape:", "data -= self.sub_hdr.zero_off",
-           "data = data * self.read_scales(isub) + self.read_offsets(isub)", "data *= self.read_weights(isub)", "return data"]
-    pos = [src.find(s) for s in seq]
-    ok = all(p >= 0 for p in pos) and pos == sorted(pos)
-    (res.ok if ok else res.bad)("R5", ru, ru.node, "unpack -> shape check (TPF) -> zero offset -> scale/offset -> weights" if ok else
-                                "read_subint no longer applies unpack, shape check, zero-offset, scales+offsets and weights in that order",
-                                construct="read_subint", key="read_subint:order")
-    rss = norm(rs.node)
-    ok = "for isub in range(startsub, startsub + nsubs):" in rss and "data = np.concatenate(data_list)" in rss and "data_list.append(sdata)" in rss
-    (res.ok if ok else res.bad)("R5", rs, rs.node, "rows startsub .. startsub+nsubs-1 are read in order and concatenated along time" if ok else
-                                "read_subints no longer concatenates rows [startsub, startsub+nsubs) in order", construct="read_subints", key="read_subints:rows")
+    for fn, name, what in ((ru, "read_subint", "unpack -> TPF shape check -> zero offset -> this row's scales+offsets -> this row's weights"),
+                           (rs, "read_subints", "rows startsub..startsub+nsubs-1 each read with the caller's (poln_select, scloffs, weights), "
+                                                "concatenated along time, channel axis flipped iff foff > 0, nothing else applied")):
+        verdict, why = kernelspec.compare(fn, name)
+        if verdict == "incomparable":
+            raise AnalysisError(f"{name} cannot be compared with its reference definition: {why[0]}")
+        (res.ok if verdict == "same" else res.bad)("R5", fn, fn.node, (what + "; " if verdict == "same" else f"{name} differs from its definition: ") +
+                                                   ("; ".join(why))[:500], construct=name, key=f"{name}:definition")
     res.floor("R1", 8)
     res.floor("R2", 6)
     res.floor("R3", 8)
@@ -301,6 +298,13 @@ MUTANTS = [
      "new": "        startsub, startsamp = divmod(start, self.sub_hdr.subint_samples)\n        for ii, block, skip in track(blocks, description=description, disable=quiet):\n"},
     {"id": "c18-fch1-after-negation", "file": H, "expect": "C18.R4",
      "old": "            fch1 = fch1 + (subint_hdr.nchans - 1) * foff\n            foff = -foff\n", "new": "            foff = -foff\n            fch1 = fch1 + (subint_hdr.nchans - 1) * foff\n"},
+]
+MUTANTS += [
+    {"id": "c18-weights-once-per-block", "file": P, "expect": "C18.R5",
+     "old": "                scloffs=scloffs,\n                weights=weights,\n            )\n            data_list.append(sdata)\n        data = np.concatenate(data_list)\n",
+     "new": "                scloffs=scloffs,\n                weights=False,\n            )\n            data_list.append(sdata)\n        data = np.concatenate(data_list)\n        if weights:\n            data = (data * self.read_weights(startsub)).astype(np.float32, copy=False)\n"},
+    {"id": "c18-scales-of-row-zero", "file": P, "expect": "C18.R5",
+     "old": "            data = data * self.read_scales(isub) + self.read_offsets(isub)", "new": "            data = data * self.read_scales(0) + self.read_offsets(isub)"},
 ]
 TWINS = [
     {"id": "c18-twin-rows-commuted", "file": R,
